@@ -23,7 +23,7 @@ def _p(expl, notdec, extra_assume=()):
 PROPS = {
     "C01": _p("Clause decided: every selected response key becomes a model member under an alias equal to the key, "
               "every fragment spread is accounted for, abstract positions get __typename injected and a Literal, "
-              "annotation/class pairing, related classes generated; one class per type condition of an interface field (inline fragments and spreads on subtypes); shared model configuration table.",
+              "annotation/class pairing, related classes generated; one class per type condition of an interface field (inline fragments and spreads on subtypes); shared model configuration table; root type of an operation; fragments attributed to subtypes; emitted client method bodies.",
               "acceptance/preservation of payloads by pydantic for all operation x response shapes; enum member mapping; model_dump round trip"),
     "C02": _p("Clause decided: the operation string reaches the written client only through literal-preserving functions; "
               "@mixin removal covers the directive's locations; authored graphql nodes are only mutated by the two documented rewrites; "
@@ -57,19 +57,19 @@ PROPS = {
               "upload extraction paths; no shared mutable state on the client; UNSET filter / dump flags.",
               "bytes on the wire produced by httpx, httpx internals, interleavings inside httpx"),
     "C12": _p("Clause decided: precedence of the response classification is a CFG property of get_data (status < decode < shape < errors < data), "
-              "closed outcome set, error attribute mapping, generated method chain execute -> get_data -> model_validate.",
+              "closed outcome set, error attribute mapping, generated method chain execute -> get_data -> model_validate (emitted-code templates of the three method flavours); add_method routing.",
               "exceptions raised from inside library calls"),
     "C13": _p("Clause decided: handshake order (init < ack < subscribe < loop) as a dominance chain; connect keyword arguments exist in the installed websockets; "
               "dispatch exhaustive over the message-type enum with the required effect per branch; frame loop yields handler results; payload shapes; OTel twin equality.",
               "behaviour over frame sequences against a live library"),
     "C14": _p("Clause decided: wire names in emitted builders come from schema names; variable type strings keep wrappers; no shared mutable builder instances; "
-              "no discarded recursive result; unique variable names; None arguments filtered; assembly of the document; non-null marker follows required-ness; client.query / client.mutation build their own operation type.",
+              "no discarded recursive result; unique variable names; None arguments filtered; assembly of the document; non-null marker follows required-ness; client.query / client.mutation build their own operation type; the emitted builder classes, root builders, argument kinds, type collector and the runtime GraphQLField as decision tables / emitted-code templates.",
               "validity of built documents for all schemas and expression trees"),
     "C15": _p("Clause decided: identity base hooks; ordered dispatch threading the result; hook table agreement; write sets of bundled plugins; "
-              "ShorterResults unwraps the same value (and exactly the Annotated[T, meta] wrapper); ExtractOperations strings; ImportFrom level consistency; hook firing order vs. plugin state; plugin manager threaded to every generator.",
+              "ShorterResults unwraps the same value (and exactly the Annotated[T, meta] wrapper); ExtractOperations strings; ImportFrom level consistency; hook firing order vs. plugin state; plugin manager threaded to every generator; decision tables of the ShorterResults and ClientForwardRefs rewriters (when a method is rewritten, which imports move where).",
               "differential behaviour plugged vs. unplugged for all inputs"),
     "C16": _p("Clause decided: emitted constructor keyword coverage against graphql-core's to_kwargs; attribute pass-through; named-type kind exhaustiveness; "
-              "lazy references inside the type map; variable names threaded unchanged through every generator; SDL target prints the validated schema; explicit UTF-8 for targets and inputs.",
+              "lazy references inside the type map; variable names threaded unchanged through every generator; SDL target prints the validated schema; explicit UTF-8 for targets and inputs; entry-point routing; settings handed over to the generators.",
               "equality of the schema obtained by executing the generated module; fidelity of repr-embedded literals"),
     "C17": _p("Clause decided: every name/path setting is validated; identifier predicate rejects keywords; validation not made vacuous by assume_valid; "
               "validate-before-write dominance in main; typed errors (section lookup table, message carries every validation error); configuration not mutated; full operation validation.",
